@@ -26,15 +26,15 @@ from ndn.transport.udp_face import UdpFace
 from . import _recv as R
 
 MODULE = 'bounded.c06'
-RULE = ('framing case = (sequence of 1-3 packets from a 9-packet menu with 1/3/5/9-byte Type and 1/3/5-byte Length '
+RULE = ('framing case = (sequence of 1-3 packets from a 10-packet menu with 1/3/5/9-byte Type and 1/3/5-byte Length '
         'numbers, cut positions, optional truncation point); receive case = (front-end v1/v2, state empty/busy, '
-        'buffer kind, delivered bytes) with bytes = a corpus packet (16 kinds) or one mutation of it (single-byte '
+        'buffer kind, delivered bytes) with bytes = a corpus packet (20 kinds) or one mutation of it (single-byte '
         'substitution, truncation with/without consistent outer length, length-field edit at any nesting depth, '
         'element removal/duplication/reversal/insertion, concatenation) or a random string; datagram case = bytes. '
         'distinct = hash of the case parameters; non-trivial = every case except an unmodified corpus packet')
 BOUND = ('framing: all 1- and 2-cut splits and sampled 3-cut splits (all in thorough) of every 1-3 packet sequence '
          'with total length <= 40 bytes, header-region cuts for the 253- and 65536-byte packets, every truncation '
-         'point; receive: 16 corpus packets x (quick: 26 substitution values per position, thorough: all 255) + all '
+         'point; receive: 20 corpus packets x (quick: 26 substitution values per position, thorough: all 255) + all '
          'truncations + 11 length edits per element + structural edits; 600 (quick) / 4000 (thorough) random strings '
          'of <= 64 bytes')
 
